@@ -49,6 +49,15 @@ add("C18", "One interpreter per DOCTRANS_LINE_LENGTH (unset, 40..200); in each, 
     CONV_NOTE, CONV_TECH, "DESIGN.md 5.1, 8 C18")
 
 
+add("C15", "Locate.tla: TLC checks that the declarative Resolve is a partial function and that the iterative Descend algorithm equals it on "
+    "every module of the level-set domain (tiny exhaustive; small/medium in thorough). Every (module, path) of the TLC-exported domain is "
+    "rendered to source and resolved by the real find_in_ast and RewriteAtQuery; TLC validates the returned node address and the set of "
+    "changed nodes against Resolve (FindExact, ReplaceExact, ReplacedFlag, *NeverRaises).",
+    "Trusted: TLC, the renderer and the independent address walk over ast (vf/locate_check.py). Bounds: nesting <= 3, names a/m/A/B, "
+    "curated level sets (Locate.tla).", "TLA+ spec (Locate.tla, PlusCal-style Descend vs declarative Resolve) model-checked with TLC; "
+    "real lookups/replacements validated by TLC (LocateTrace.tla)", "DESIGN.md 5.6, 8 C15")
+
+
 def main():
     props = [json.loads(l)["id"] for l in open(os.path.join(HERE, "properties.jsonl"))]
     m = {
